@@ -255,6 +255,11 @@ def unwrap_function(obj):
         obj = obj.__func__
     if isinstance(obj, property):
         obj = obj.fget
-    while hasattr(obj, '__wrapped__'):
-        obj = obj.__wrapped__
+    for _ in range(8):
+        if hasattr(obj, '__wrapped__'):
+            obj = obj.__wrapped__
+        elif type(obj).__name__ == '_VArgsWrapper' and hasattr(obj, 'base_func'):
+            obj = obj.base_func          # lark's v_args decoration of a transformer callback
+        else:
+            break
     return obj
